@@ -41,6 +41,60 @@ def ret_value_on_path(body, path):
     return _paths.value_on_path(body, path, 0)
 
 
+def deliver_label(f):
+    """How the handler says "hand this PUBLISH to the application": the label of the edge that process_received_packet
+    takes on the payload of the handler's Ok result to reach `Ok(Some(length))` -- True for a `bool` payload, a variant
+    name when the handler returns a two-variant enum (`Handled::Deliver`).  None when it cannot be determined."""
+    cm = roles.conn_methods(f)
+    pb, pcode = cm["process_received_packet"]
+    hb, sw = outq.inbound_handler(f)
+    hc = outq.calls_to(f, pcode, hb)
+    if len(hc) != 1:
+        return None
+    found = set()
+    for sbb in pcode.switches:
+        if sbb not in pcode.reachable:
+            continue
+        si = pcode.switch_info(sbb)
+        r2, n2 = chain(si["subject"])
+        r2 = peel(r2)
+        if not (n2[-2:] == ["@Ok", "0"] and isinstance(r2, tuple) and r2[0] == "call" and r2[1] == hc[0].bb):
+            continue
+        labs = dict(si["edges"])
+        for lab, tgt in labs.items():
+            vals = []
+            for lf in paths.explore(pcode, tgt, lambda t_: False, lambda b_, x_: False, max_paths=500):
+                if lf["kind"] == "return":
+                    vals.append(paths.value_on_path(pcode, [sbb] + lf["path"], 0))
+            if vals and all(v is not None and v[0] == "agg" and v[3] == "Ok" and v[5] and peel(v[5][0])[0] == "agg"
+                            and peel(v[5][0])[3] == "Some" for v in vals):
+                found.add(lab)
+    if len(found) == 1:
+        return next(iter(found))
+    # `Ok(delivered.then_some(len))` and similar: the payload is used as a boolean without a switch of its own
+    return True if not found else None
+
+
+def is_deliver(f, v):
+    """v (a return value of the handler) is Ok(<deliver>)"""
+    if v is None or v[0] != "agg" or v[3] != "Ok" or not v[5]:
+        return False
+    lab = deliver_label(f)
+    p = peel(v[5][0])
+    if lab is True:
+        return p[0] == "const" and p[2] == 1
+    if isinstance(lab, str):
+        return p[0] == "agg" and p[3] == lab
+    return False
+
+
+def is_pending_ids(names):
+    """the chain denotes the table of pending inbound QoS 2 identifiers -- the field itself, or the collection inside a
+    private newtype wrapped around it (`InboundQos2(Vec<..>)`)"""
+    names = [k for k in names if not k.startswith("@")]
+    return names[:1] == ["pending_server_packet_ids"] and all(k in ("0", "ids", "inner", "#") for k in names[1:]) and len(names) <= 2
+
+
 def is_ok(v, payload=None):
     if v is None or v[0] != "agg" or v[3] != "Ok":
         return False
@@ -92,7 +146,7 @@ def rule_ack(R):
             if lf["kind"] != "return":
                 continue
             v = ret_value_on_path(hb, lf["path"])
-            relevant = is_ok(v, 1) if need == "deliver" else is_ok(v)
+            relevant = is_deliver(f, v) if need == "deliver" else is_ok(v)
             if not relevant:
                 continue
             n += 1
@@ -135,13 +189,13 @@ def rule_once(R):
     for c in hb.calls.values():
         if c.bb in hb.reachable and c.args and outq.mname(c) in outq.GROW:
             r, n = chain(hb.operand_term(c.args[0]))
-            if n == ["pending_server_packet_ids"]:
+            if is_pending_ids(n):
                 pushes[c.bb] = c
     leaves = paths.explore(hb, start, lambda t: False, lambda b, bb: bb in pushes)
     bad = None
     n = 0
     for lf in leaves:
-        if lf["kind"] == "return" and is_ok(ret_value_on_path(hb, lf["path"]), 1):
+        if lf["kind"] == "return" and is_deliver(f, ret_value_on_path(hb, lf["path"])):
             n += 1
             if not lf["marked"]:
                 bad = lf
@@ -237,7 +291,7 @@ def rule_rel(R):
              % table, where=c.span)
     # the found edge removes the identifier
     rem = [c for c in hb.calls.values() if c.bb in blocks and outq.mname(c) in ("swap_remove", "remove")
-           and chain(hb.operand_term(c.args[0]))[1] == ["pending_server_packet_ids"]]
+           and is_pending_ids(chain(hb.operand_term(c.args[0]))[1])]
     okr = bool(rem) and some_t is not None
     if okr:
         for c in rem:
@@ -275,7 +329,7 @@ def rule_reset(R):
     for c in rst.calls.values():
         if c.bb in rst.reachable and outq.mname(c) == "clear" and c.args:
             r, n = chain(rst.operand_term(c.args[0]))
-            if n == ["pending_server_packet_ids"]:
+            if is_pending_ids(n):
                 ok = True
     R.ob("reset/clears-pending-ids", ok, "a fresh broker session forgets all pending inbound QoS 2 identifiers", where=rst.span)
     # nobody else shrinks the pending set except the PUBREL arm and the reset
@@ -418,8 +472,8 @@ def rule_faithful(R):
                     for sbb in pcode.switches:
                         si2 = pcode.switch_info(sbb)
                         r2, n2 = chain(si2["subject"])
-                        if n2[-2:] == ["@Ok", "0"] and si2["edges"].get(True) is not None:
-                            tru = pcode.must_pass([0], [bb], via_edges=[(sbb, si2["edges"][True])])[0]
+                        if n2[-2:] == ["@Ok", "0"] and si2["edges"].get(deliver_label(f)) is not None:
+                            tru = pcode.must_pass([0], [bb], via_edges=[(sbb, si2["edges"][deliver_label(f)])])[0]
                     okp = okp and tru
     if len(hc) == 1 and not okp:
         # read per path: the function returns Ok(Some(len)) only on paths that took the Ok edge of the handler's result and
@@ -431,8 +485,8 @@ def rule_faithful(R):
             si2 = pcode.switch_info(sbb)
             r2, n2 = chain(si2["subject"])
             if n2[-2:] == ["@Ok", "0"] and isinstance(peel(r2), tuple) and peel(r2)[0] == "call" and peel(r2)[1] == hc[0].bb \
-                    and si2["edges"].get(True) is not None:
-                tru_edges.add((sbb, si2["edges"][True]))
+                    and si2["edges"].get(deliver_label(f)) is not None:
+                tru_edges.add((sbb, si2["edges"][deliver_label(f)]))
         some_paths = 0
         good = bool(ok_edges) and bool(tru_edges)
         for lf in paths.explore(pcode, 0, lambda t_: False, lambda b_, x_: False, max_paths=4000):
